@@ -3,6 +3,10 @@
 //! header: `fallback strategy=<value|value_fn|from_error|from_request_error|service|exception>
 //!          [handle=<bit mask over error kinds>] val=<n>`
 //! arrive: `arrive <c> tag=<t> inner=<lat>:<out>[,<lat>:<out> for the backup call]`
+//! manual: `manual dropsvc` — the caller drops every handle it holds: the service, (every clone is
+//!          a temporary of `arrive` already) and the layer, while call futures may be in flight
+//!          (`svc.oneshot(req)`; `let f = svc.call(req); drop(svc); f.await`). Later `arrive`s are
+//!          answered `noop`: there is nothing left to make a call on.
 //!
 //! The user-supplied functions are fixed test functions with distinguishable results (the same
 //! ones as in `TR.Model.Fallback`); each invocation is logged (they are calls into user code,
@@ -14,7 +18,10 @@ use tower::{Layer, Service};
 use tower_resilience_fallback::{Fallback, FallbackError, FallbackLayer};
 
 pub struct Adapter {
-    svc: Fallback<Inner, Req, Resp, IErr>,
+    /// the layer is kept (not a temporary of the builder statement) so that without `manual dropsvc`
+    /// every kind of handle stays alive for the whole case, and with it every kind is dropped
+    layer: Option<FallbackLayer<Req, Resp, IErr>>,
+    svc: Option<Fallback<Inner, Req, Resp, IErr>>,
 }
 
 impl Adapter {
@@ -68,7 +75,9 @@ impl Adapter {
         // `order=1`: the handle predicate is configured BEFORE the strategy (builder calls commute)
         let b = FallbackLayer::<Req, Resp, IErr>::builder().name("verif");
         let b = if kv.u64("order", 0) == 1 { strategy(handle(b)) } else { handle(strategy(b)) };
-        Adapter { svc: b.build().layer(Inner::new()) }
+        let layer = b.build();
+        let svc = layer.layer(Inner::new());
+        Adapter { layer: Some(layer), svc: Some(svc) }
     }
 }
 
@@ -94,7 +103,12 @@ pub fn render(r: Out) -> String {
 
 impl Mw for Adapter {
     fn arrive(&mut self, c: usize, kv: &Kv) -> Option<CallFut> {
-        let mut svc = self.svc.clone();
+        let Some(svc) = self.svc.as_ref() else {
+            log("noop".into());
+            return None;
+        };
+        // the call is made on a clone that is dropped as soon as the response future exists
+        let mut svc = svc.clone();
         let req = Req::new(c, kv);
         match poll_ready_once(&mut svc) {
             std::task::Poll::Ready(Ok(())) => {}
@@ -104,10 +118,18 @@ impl Mw for Adapter {
             }
         }
         let fut = svc.call(req);
+        drop(svc);
         Some(Box::pin(async move {
             let r = fut.await;
             log(format!("resp {} {}", c, detail(&r)));
             render(r)
         }))
+    }
+    fn manual(&mut self, what: &str, _kv: &Kv) {
+        if what == "dropsvc" {
+            log_raw(format!("#dropsvc {}", now_ms()));
+            self.svc = None;
+            self.layer = None;
+        }
     }
 }
